@@ -64,10 +64,60 @@ def insertInOrder (idx : ν → Nat) (n : ν) : List ν → List ν
     else if ¬ (idx n > idx c) then n :: c :: cs
     else c :: insertInOrder idx n cs
 
+/-- loop state of `findInsertionPointBinarySearch` (iterators as positions; `end` = length) -/
+structure BSState where
+  first : Nat
+  last : Nat
+  current : Nat
+  curIdx : Nat
+  fInsert : Bool
+
+/-- MutableNodeRefList.cpp `findInsertionPointBinarySearch`, the `while (first <= last)` loop over the node
+indices `is` of the list (`fuel` bounds the iterations):
+```
+current = first + (last - first) / 2;  theCurrentIndex = (*current)->getIndex();
+if (theIndex < theCurrentIndex) { if (current == begin) break; else last = current - 1; }
+else if (theIndex > theCurrentIndex) first = current + 1;
+else { fInsert = false; break; }
+``` -/
+def bsLoop (is : List Nat) (theIndex : Nat) : Nat → BSState → BSState
+  | 0, s => s
+  | fuel + 1, s =>
+    if s.first ≤ s.last then
+      let current := s.first + (s.last - s.first) / 2
+      let ci := is.getD current 0
+      if theIndex < ci then
+        if current = 0 then { s with current := current, curIdx := ci }
+        else bsLoop is theIndex fuel { s with current := current, curIdx := ci, last := current - 1 }
+      else if theIndex > ci then
+        bsLoop is theIndex fuel { s with current := current, curIdx := ci, first := current + 1 }
+      else { s with current := current, curIdx := ci, fInsert := false }
+    else s
+
+/-- the code after the loop: `(fInsert, insertionPoint)` -/
+def bsFinish (n theIndex : Nat) (s : BSState) : Bool × Nat :=
+  if theIndex ≠ s.curIdx then
+    if s.current = n ∨ s.first = n then (s.fInsert, n)
+    else if s.curIdx < theIndex then (s.fInsert, s.current + 1)
+    else (s.fInsert, s.current)
+  else (s.fInsert, n)     -- duplicate found: the insertion point is not used
+
+/-- `findInsertionPointBinarySearch` on a non-empty list: quick check "just append", else the search -/
+def findInsertionPointBinarySearch (is : List Nat) (theIndex : Nat) : Bool × Nat :=
+  let n := is.length
+  let last := n - 1
+  if is.getD last 0 < theIndex then (true, n)
+  else bsFinish n theIndex (bsLoop is theIndex (n + 1) ⟨0, last, n, 0, true⟩)
+
+/-- `m_nodeList.insert(insertionPoint, node)` -/
+def insertAtPos (l : List ν) (pos : Nat) (n : ν) : List ν := l.take pos ++ n :: l.drop pos
+
 /-- `MutableNodeRefList::addNodeInDocOrder` for nodes of one `XalanSourceTree` document:
 empty → `addNode`; same as the last node → nothing; the document node that owns the first node of the list
-(`node == theFirstNodeOwner`) → insert at the front unless it is already the first; any other node → insertion
-point by index.  `isDoc n` = `n` is the document node. -/
+(`node == theFirstNodeOwner`) → insert at the front unless it is already the first; any other node (indexed,
+same owner as the first and the last node) → `findInsertionPointBinarySearch` and insert unless duplicate.
+`isDoc n` = `n` is the document node.  (`insertInOrder` above is the linear search the code uses for lists that
+span documents; `KeysProofs.binarySearch_eq_linear` shows the two agree on a document-ordered list.) -/
 def addNodeInDocOrder (idx : ν → Nat) (isDoc : ν → Bool) (n : ν) (l : List ν) : List ν :=
   match l.getLast? with
   | none => [n]
@@ -77,7 +127,9 @@ def addNodeInDocOrder (idx : ν → Nat) (isDoc : ν → Bool) (n : ν) (l : Lis
       match l with
       | [] => [n]
       | first :: _ => if idx first = idx n then l else n :: l
-    else insertInOrder idx n l
+    else
+      let r := findInsertionPointBinarySearch (l.map idx) (idx n)
+      if r.1 then insertAtPos l r.2 n else l
 
 /-- `addNodesInDocOrder(nl)`: one `addNodeInDocOrder` per entry -/
 def addNodesInDocOrder (idx : ν → Nat) (isDoc : ν → Bool) (nl : List ν) (l : List ν) : List ν :=
